@@ -26,16 +26,47 @@ def camel(tok):
     return "".join(p.capitalize() for p in tok.split("_"))
 
 
-def read_grammar(mirror):
-    """precedence levels of feel.y: token -> (level, assoc)"""
-    y = mirror.read("feel-grammar/src/feel.y")
+# The precedence and associativity FEEL prescribes (DMN 1.3 §10.3.1.2: the nesting of grammar rules 2-4, i.e. for / if / quantified
+# below disjunction below conjunction below comparison below + - below * / below ** below unary minus below instance of below path,
+# filter and invocation), written as the declaration lines of the grammar file at the pinned commit.  This - not the working tree's
+# feel.y - is the oracle: a change that edits feel.y and the generated tables consistently is still a change of the language.
+REFERENCE_PRECEDENCE = """
+%precedence RETURN EXTERNAL SATISFIES
+%precedence ELSE
+%left OR
+%left AND
+%nonassoc EQ NQ LT LE GT GE
+%precedence BETWEEN
+%precedence BETWEEN_AND
+%right IN
+%left MINUS PLUS
+%left MUL DIV
+%left EXP
+%precedence PREC_NEG
+%precedence INSTANCE
+%precedence NAME NAME_DATE_TIME BUILT_IN_TYPE_NAME
+%precedence LEFT_PAREN LEFT_BRACKET
+%precedence DOT
+"""
+
+
+def _levels(text):
     prec = {}
     level = 0
-    for m in re.finditer(r"^%(left|right|nonassoc|precedence)\s+(.*)$", y, re.M):
+    for m in re.finditer(r"^%(left|right|nonassoc|precedence)\s+(.*)$", text, re.M):
         level += 1
         for t in m.group(2).split():
             prec[t] = (level, m.group(1))
     return prec
+
+
+def read_grammar(mirror):
+    """precedence levels: token -> (level, assoc), from the reference declarations (the working tree's feel.y is only compared)"""
+    return _levels(REFERENCE_PRECEDENCE)
+
+
+def grammar_file_differs(mirror):
+    return _levels(mirror.read("feel-grammar/src/feel.y")) != _levels(REFERENCE_PRECEDENCE)
 
 
 def read_rules(mirror):
@@ -165,6 +196,29 @@ class RefParser:
             inner = self.expr(0)
             self.take("RightParen")
             left = ("paren", inner)
+        elif t == "If":
+            # IF expression THEN expression ELSE expression: the rule has the precedence of ELSE, every operator token binds tighter,
+            # so the else branch extends as far to the right as it can
+            self.take()
+            cond = self.expr(0)
+            self.take("Then")
+            a = self.expr(0)
+            self.take("Else")
+            b = self.expr(self.lvl("ELSE"))
+            left = ("if", cond, a, b)
+            self.post.append(("if",))
+        elif t in ("For", "Some", "Every"):
+            # FOR NAME IN expression RETURN expression / SOME|EVERY NAME IN expression SATISFIES expression: precedence of RETURN / SATISFIES
+            self.take()
+            self.take("Name")
+            var = next(self.names)
+            self.take("In")
+            dom = self.expr(self.lvl("IN") + 1)
+            kw = "Return" if t == "For" else "Satisfies"
+            self.take(kw)
+            body = self.expr(self.lvl(kw.upper()))
+            left = (t.lower(), var, dom, body)
+            self.post.append((t.lower(),))
         else:
             raise RefError("unexpected %s" % t)
         last_nonassoc = None
@@ -244,6 +298,10 @@ def render(t, full):
         return w("%s[%s]" % (render(t[1], full), render(t[2], full)))
     if k == "instance":
         return w("%s instance of number" % render(t[1], full))
+    if k == "if":
+        return w("if %s then %s else %s" % (render(t[1], full), render(t[2], full), render(t[3], full)))
+    if k in ("for", "some", "every"):
+        return w("%s %s in %s %s %s" % (k, t[1], render(t[2], full), "return" if k == "for" else "satisfies", render(t[3], full)))
     raise ValueError(k)
 
 
@@ -257,7 +315,9 @@ def plain_text(toks):
             out.append(OP_TEXT[t])
         else:
             out.append({"Minus": "-", "LeftParen": "(", "RightParen": ")", "Between": "between", "BetweenAnd": "and", "Dot": ".",
-                        "LeftBracket": "[", "RightBracket": "]", "Instance": "instance", "Of": "of", "BuiltInTypeName": "number"}[t])
+                        "LeftBracket": "[", "RightBracket": "]", "Instance": "instance", "Of": "of", "BuiltInTypeName": "number",
+                        "If": "if", "Then": "then", "Else": "else", "For": "for", "Some": "some", "Every": "every", "Return": "return",
+                        "Satisfies": "satisfies"}[t])
     s = " ".join(out)
     return s.replace(" . ", ".").replace("( ", "(").replace(" )", ")").replace(" [ ", "[").replace(" ]", "]").replace("- ", "-")
 
@@ -279,12 +339,19 @@ TEMPLATES = {
     "parens_right": (["Name", "S", "LeftParen", "Name", "S", "Name", "RightParen"], "quick"),
     "instance_after": (["Name", "S", "Name", "Instance", "Of", "BuiltInTypeName"], "quick"),
     "instance_before": (["Name", "Instance", "Of", "BuiltInTypeName", "S", "Name"], "quick"),
+    "if_else_tail": (["If", "Name", "Then", "Name", "Else", "Name", "S", "Name"], "quick"),
+    "if_condition": (["If", "Name", "S", "Name", "Then", "Name", "Else", "Name"], "quick"),
+    "if_then": (["If", "Name", "Then", "Name", "S", "Name", "Else", "Name"], "quick"),
+    "if_operand": (["Name", "S", "If", "Name", "Then", "Name", "Else", "Name", "S", "Name"], "quick"),
+    "for_body": (["For", "Name", "In", "Name", "Return", "Name", "S", "Name"], "quick"),
+    "some_body": (["Some", "Name", "In", "Name", "Satisfies", "Name", "S", "Name"], "quick"),
+    "every_body": (["Every", "Name", "In", "Name", "Satisfies", "Name", "S", "Name"], "quick"),
     "triples": (["Name", "S", "Name", "S", "Name", "S", "Name"], "thorough"),
     "neg_triple": (["Minus", "Name", "S", "Name", "S", "Minus", "Name"], "thorough"),
     "parens_mid": (["Name", "S", "LeftParen", "Name", "S", "Name", "RightParen", "S", "Name"], "thorough"),
 }
 
-SIGNIFICANT = {22: ("between",), 38: ("neg",), 40: ("instance",), 41: ("dot",), 42: ("dot",), 43: ("filter",)}
+SIGNIFICANT = {22: ("between",), 38: ("neg",), 40: ("instance",), 41: ("dot",), 42: ("dot",), 43: ("filter",), 15: ("for",), 16: ("if",), 18: ("some",), 20: ("every",)}
 
 
 def run(check, mirror, tier):
@@ -306,7 +373,9 @@ def run(check, mirror, tier):
                      "driver loop unwound up to 120 visits per block; state/value stacks as bounded Vec models"]
     check.assumptions += ["the lexer is replaced by a token cursor (scope-dependent name splitting and lexer flags are outside: C10)",
                           "lalr::reduce is replaced by a logger of the rule number; the rule -> action map is read from lalr.rs, the actions' tree building is not executed",
-                          "oracle: operator-precedence parser driven by the %left/%right/%nonassoc/%precedence lines of feel.y"]
+                          "oracle: operator-precedence parser driven by the reference %left/%right/%nonassoc/%precedence declarations (checks/C06.py REFERENCE_PRECEDENCE = feel.y at the pinned commit)"]
+    if grammar_file_differs(mirror):
+        check.samples.append(dict(note="the precedence declarations of feel-grammar/src/feel.y differ from the reference declarations; the reference is the oracle"))
     name_tv = En("TokenValue", z3.IntVal(g.tv["Name"]), {"Name": (Opaque("Name"),)})
     other_tv = En("TokenValue", z3.IntVal(g.tv["YyEmpty"]), {"YyEmpty": ()})
 
